@@ -43,7 +43,7 @@ TIMEOUT = {"quick": 900, "thorough": 7200}
 MIN_CASES = {"quick": 15000, "thorough": 250000}
 REQUIRED_COUNTERS = [
     "honest_accepted", "accessory_accepted_m3", "keys_compared", "resume_accepted", "adversarial_rejected",
-    "m2_bitflips", "m4_bitflips", "exchange_keys_observed", "repair_history_steps", "ip_end_to_end_sessions", "ble_end_to_end_sessions", "coap_end_to_end_sessions",
+    "m2_bitflips", "m4_bitflips", "exchange_keys_observed", "repair_history_steps", "unverified_peer_probes", "ip_end_to_end_sessions", "ble_end_to_end_sessions", "coap_end_to_end_sessions",
 ]
 
 BLE_COAP_BUILT = True
@@ -498,6 +498,32 @@ async def ip_end_to_end(ctx, idx) -> None:
             ctx.violation("ip-request-not-encrypted", "accessory did not receive the request inside the session", replay)
             return
         ctx.count("ip_end_to_end_sessions")
+        # ---- the connection is lost and the NEXT peer never proves anything (it does not even answer M1): no session may be
+        # reported for it and nothing but /pair-verify may reach it - least of all a request in clear text ----
+        w.accessory.script_for = lambda h, a: simnet.ConnScript(verify="hang")
+        n_before = len(w.accessory.conns)
+        conn.close()
+        for _ in range(6):
+            await asyncio.sleep(0.5)
+            await vloop.settle()
+            if len(w.accessory.conns) > n_before:
+                break
+        if len(w.accessory.conns) > n_before:
+            conn2 = w.accessory.conns[-1]
+            await vloop.settle()
+            if w.connection.is_connected:
+                ctx.violation("session-reported-before-peer-proved-possession", "after a reconnect is_connected is true while the new peer has not answered pair-verify M1", replay)
+                return
+            t = asyncio.ensure_future(w.pairing.get_characteristics([(1, 9)]))
+            t.add_done_callback(lambda f: f.cancelled() or f.exception())
+            await asyncio.sleep(3.0)
+            await vloop.settle()
+            leaked = [r for r in conn2.requests if r["target"] != "/pair-verify"]
+            t.cancel()
+            if leaked or conn2.secure:
+                ctx.violation("request-sent-to-unverified-peer", f"the unverified peer received {[(r['method'], r['target'], 'encrypted' if r['secure'] else 'CLEAR TEXT') for r in leaked]}", replay)
+                return
+            ctx.count("unverified_peer_probes")
     finally:
         await w.close()
 
